@@ -574,8 +574,9 @@ class Factory:
                     for f in problem_features
                 )
                 if optimality_guarantee is not None:
-                    assert issubclass(EngineClass, OneshotPlannerMixin)
-                    x.append(str(EngineClass.satisfies(optimality_guarantee)))
+                    # (not only one-shot planners: replanners, plan repairers and
+                    # portfolio selectors are selected by optimality guarantee too)
+                    x.append(str(EngineClass.satisfies(optimality_guarantee)))  # type: ignore
                 elif anytime_guarantee is not None:
                     assert issubclass(EngineClass, AnytimePlannerMixin)
                     x.append(str(EngineClass.ensures(anytime_guarantee)))
